@@ -1,6 +1,8 @@
 """C01 — namespace and content operations agree with an abstract tree model."""
+import os
 from . import common as C
 from . import apilib as A
+from . import physlib as P
 
 PID = "C01"
 MODULE = "CfbVerif.Props.C01"
@@ -48,11 +50,24 @@ def run(ctx):
             hist[k] = hist.get(k, 0) + v
         if sample and len(samples) < 2:
             samples.append(sample)
+    # "on files created fresh or reopened", at sizes the campaigns above do not reach: the 18 MB version-3
+    # history (second FAT sector ... first and second DIFAT sector) against the abstract tree model, then the
+    # bytes reopened in both modes against the live state
+    hdir = ctx.path("huge")
+    os.makedirs(hdir, exist_ok=True)
+    rc, out = C.harness(["phys", "--huge", hdir, "--ops", ctx.path("huge.ops"), "--impl", ctx.path("huge.impl")])
+    for msg in C.parse_stats(out)[2]:
+        C.add_violation(ctx, "huge:" + P.signature(msg), msg[:400], "# C01 on the 18 MB history (harness phys --huge <dir>): %s\n%s\n" % (msg[:1500], open(ctx.path("huge.ops")).read() if os.path.exists(ctx.path("huge.ops")) else ""))
+    try:
+        os.remove(os.path.join(hdir, "huge_v3.cfb"))
+    except OSError:
+        pass
+    total_ops += 8
     ctx.coverage.update({
         "evaluations": total_ops,
         "distinct_nontrivial": distinct,
         "rule": "API histories on the real crate and on the Lean Dir model in lock-step, comparing after every call the result (level O: ok/err kind, listings with names, paths, kinds, lengths, CLSIDs, state bits, times, stream bytes) and the library's in-memory directory table row by row through hook H3 (level D: slot, name, type, colour, left/right/child links, length, metadata). "
-                "perm4: every insertion order x every removal order of 4 sibling names (3 name sets, mixed streams/storages, both versions, reopen inside); perm5: every insertion order x sampled (quick) / every (thorough) removal order of 5; rand/deep: random histories over name pools with case variants and path spellings; refuse: 40% refusals incl. invalid names and stream parents. distinct = distinct FNV hashes of history text; a history is non-trivial if it has >= 1 call after create",
+                "perm4: every insertion order x every removal order of 4 sibling names (3 name sets, mixed streams/storages, both versions, reopen inside); perm5: every insertion order x sampled (quick) / every (thorough) removal order of 5; rand/deep: random histories over name pools with case variants and path spellings; refuse: 40% refusals incl. invalid names and stream parents; huge: one 18 MB version-3 history (275 FAT sectors, two DIFAT sectors) against the abstract tree model, its bytes reopened in both modes. distinct = distinct FNV hashes of history text; a history is non-trivial if it has >= 1 call after create",
         "samples": samples,
         "traces_validated_against_impl": total_h,
         "histogram": hist,
